@@ -26,7 +26,7 @@ func init() {
 			"C13.8 (=C14.8) a binding is marked refreshed only after a confirmed bind; the read-deadline timer is never replaced.; " +
 			"C13.9 the peer address of an inbound indication is decoded into storage of that one message (a local), never into a pooled or remembered object whose bytes a later message rewrites; " +
 			"C13.10 table keys made from net/netip values are unmapped first, so one peer spelled as 1.2.3.4 and as ::ffff:1.2.3.4 is one key (no instance while the module does not use net/netip); " +
-			"C13.11 UDPConn.Close closes the conn's closeCh on every path except the already-closed one: a failure to send the de-allocating Refresh does not leave blocked readers waiting. C13.12 HandleInbound queues every payload (nothing in front of the non-blocking send); C13.13 nothing deletes a binding. C13.14 the inbound path takes no lock that is held across a transaction; C13.15 OnDeallocated is reported once.",
+			"C13.11 UDPConn.Close closes the conn's closeCh on every path except the already-closed one: a failure to send the de-allocating Refresh does not leave blocked readers waiting. C13.12 HandleInbound queues every payload (nothing in front of the non-blocking send); C13.13 nothing deletes a binding. C13.14 the inbound path takes no lock that is held across a transaction; C13.15 OnDeallocated is reported once. C13.16 FindAddrByChannelNumber fails only for a number that is not in the binding table (closed refusal set).",
 		NotCovered: "uniqueness of channel numbers beyond 16384 live peers (the counter wraps), deadline timing, what the server answers.",
 		Run:        runC13,
 	})
@@ -605,6 +605,7 @@ func runC13(c *Ctx) {
 	ruleNoBindingDeletion(c, "C13.13")
 	ruleInboundLocksNotHeldAcrossTransactions(c, "C13.14")
 	ruleDeallocatedOnce(c, "C13.15")
+	ruleFindAddrRefusals(c, "C13.16")
 }
 
 // ruleClientNumbers: shared by C08.4 and C13.4.
